@@ -297,6 +297,9 @@ class GenericTypeMeta(type):
             return True
 
         cls_origin = get_origin(cls)
+        if isinstance(subcls, _RuntimeSubclassCheckMeta) and get_args(subcls):
+            # a wrapped typing pattern such as typing_wrap[Union[A, B]]
+            return deep_issubclass(subcls, cls)
         if not isinstance(subcls, GenericTypeMeta):
             return super(GenericTypeMeta, cls_origin).__subclasscheck__(subcls)
 
